@@ -50,6 +50,7 @@ ObsB(o, qq, cp) ==
   /\ o.idx = qq                                \* Index, i < len
   /\ o.get_oob                                 \* get(len) and get(len + cap) are None
   /\ o.s1 \o o.s2 = qq                         \* the slice pair, concatenated
+  /\ o.drain_len = << Len(qq), Len(qq), Len(qq) >>   \* drain(): exact length and size hint = what it will yield
   /\ BRawAgrees(o.raw, qq) /\ Len(o.raw.data) = cp
   /\ o.canary                                  \* guard words around the backing slice intact
   /\ \A i \in 1..Len(qq) : qq[i] # Poison      \* no dead slot exposed
